@@ -306,8 +306,14 @@ impl Node {
         let storage: Storage = (*temp).clone();
         // balances in non-native assets cannot be expressed in the genesis file; they are written
         // to the (empty) store before genesis, identically on every node
-        if !cfg.extra.is_empty() {
+        {
+            use crate::assets::StateWriteExt as _;
             let mut delta = StateDelta::new(storage.latest_snapshot());
+            for d in asset_denoms() {
+                if let Denom::TracePrefixed(t) = d {
+                    delta.put_ibc_asset(t).expect("put ibc asset");
+                }
+            }
             for (acct, asset, amount) in &cfg.extra {
                 delta
                     .put_account_balance(&keys.addr(*acct), &denom(*asset), *amount)
@@ -334,6 +340,17 @@ impl Node {
         .await
         .expect("init_chain");
         app.commit(storage.clone()).await.expect("commit genesis");
+        drop(app);
+        write_ibc_genesis(&storage).await;
+        let app = App::new(
+            storage.latest_snapshot(),
+            mempool.clone(),
+            upgrades_handler(cfg),
+            VeHandler::new(None),
+            metrics(),
+        )
+        .await
+        .expect("app after ibc genesis");
         Self {
             idx,
             _temp: temp,
@@ -372,6 +389,98 @@ impl Node {
         self.app = Some(app);
         self.down_until = None;
     }
+}
+
+pub(crate) const COUNTERPARTY_CHANNELS: [&str; 2] = ["channel-10", "channel-11"];
+
+/// IBC core state that on a real chain results from the client/connection/channel handshakes:
+/// one active tendermint client, one open connection, and two open unordered `transfer` channels
+/// (`channel-0` <-> `channel-10`, `channel-1` <-> `channel-11`). Written directly, identically on
+/// every node, right after genesis.
+pub(crate) async fn write_ibc_genesis(storage: &Storage) {
+    use ibc_types::core::{
+        channel::{
+            channel::{
+                Counterparty as ChanCounterparty,
+                Order,
+                State as ChanState,
+            },
+            ChannelEnd,
+            ChannelId,
+            PortId,
+            Version as ChanVersion,
+        },
+        client::ClientId,
+        commitment::MerkleRoot,
+        connection::{
+            ConnectionEnd,
+            ConnectionId,
+            Counterparty as ConnCounterparty,
+            State as ConnState,
+            Version as ConnVersion,
+        },
+    };
+    use ibc_types::lightclients::tendermint::ConsensusState;
+    use penumbra_ibc::component::{
+        ChannelStateWriteExt as _,
+        ClientStateWriteExt as _,
+        ConnectionStateWriteExt as _,
+        ConsensusStateWriteExt as _,
+    };
+
+    use crate::app::StateWriteExt as _;
+
+    let mut delta = StateDelta::new(storage.latest_snapshot());
+    let ts = block_time(0, 0);
+    delta.put_block_timestamp(ts).expect("timestamp");
+    let client_id = ClientId::default();
+    let client_state = crate::test_utils::dummy_ibc_client_state(5);
+    let height = client_state.latest_height;
+    delta.put_client(&client_id, client_state);
+    let consensus_state = ConsensusState::new(
+        MerkleRoot {
+            hash: vec![1; 32],
+        },
+        ts,
+        tendermint::Hash::Sha256([2; 32]),
+    );
+    // (the host interface refuses height 0 when it records at which height the client was updated)
+    delta.put_block_height(1).expect("height");
+    delta
+        .put_verified_consensus_state::<crate::ibc::host_interface::AstriaHost>(height, client_id.clone(), consensus_state)
+        .await
+        .expect("consensus state");
+    delta.put_block_height(0).expect("height");
+    let conn_id = ConnectionId::new(0);
+    delta.update_connection(
+        &conn_id,
+        ConnectionEnd {
+            state: ConnState::Open,
+            client_id: client_id.clone(),
+            counterparty: ConnCounterparty {
+                client_id: client_id.clone(),
+                connection_id: Some(ConnectionId::new(7)),
+                prefix: penumbra_ibc::IBC_COMMITMENT_PREFIX.clone(),
+            },
+            versions: vec![ConnVersion::default()],
+            delay_period: std::time::Duration::from_secs(0),
+        },
+    );
+    for (i, remote) in COUNTERPARTY_CHANNELS.iter().enumerate() {
+        let chan = ChannelEnd {
+            state: ChanState::Open,
+            ordering: Order::Unordered,
+            remote: ChanCounterparty {
+                port_id: PortId::transfer(),
+                channel_id: Some(remote.parse::<ChannelId>().unwrap()),
+            },
+            connection_hops: vec![conn_id.clone()],
+            version: ChanVersion::new("ics20-1".to_string()),
+            ..ChannelEnd::default()
+        };
+        delta.put_channel(&ChannelId::new(i as u64), &PortId::transfer(), chan);
+    }
+    storage.commit(delta).await.expect("ibc genesis commit");
 }
 
 /// Dump of the whole verifiable key space of a snapshot.
